@@ -344,6 +344,9 @@ Definition get_message_code : list dstmt :=
 (* driver/netconf/rpc.go Driver.sendRPC (the polling goroutine as one effect) *)
 Definition send_rpc_code : list dstmt :=
   [DIf (DAtom "d.ForceSelfClosingTags") [] []; DCall "m.serialize(d.SelectedVersion, d.ForceSelfClosingTags, d.ExcludeHeader)"; DIf (DNot (DEq "err" "nil")) [DReturn "nil, err"] []; DAssign "r" "response.NewNetconfResponse( serialized.rawXML, serialized.framedXML, d.Transport.GetHost(), d.Transport.GetPort(), d.SelectedVersion, )"; DAssign "err" "d.Channel.WriteAndReturn(serialized.framedXML, false)"; DIf (DNot (DEq "err" "nil")) [DReturn "nil, err"] []; DIf (DEq "d.SelectedVersion" "V1Dot1") [DAssign "err" "d.Channel.WriteReturn()"; DIf (DNot (DEq "err" "nil")) [DReturn "nil, err"] []] []; DAssign "done" "make(chan []byte)"; DCall "context.WithCancel(context.Background()) -> ctx, cancel"; DCall "defer cancel()"; DCall "go func() { defer close(done) var data []byte for { if ctx.Err() != nil { return } data = d.getMessage(m.MessageID) if data != nil { break } time.Sleep(5 * time.Microsecond) } select { case done <- data: case <-ctx.Done(): } }()"; DAssign "timer" "time.NewTimer(d.Channel.GetTimeout(op.Timeout))"; DSwitch "select" [(["err = <-d.errs"], [DReturn "nil, err"]); (["<-timer.C"], [DReturn "nil, fmt.Errorf(""%w: channel timeout sending input to device"", util.ErrTimeoutError)"]); (["data := <-done"], [DCall "r.Record(data)"])]; DReturn "r, nil"].
+(* channel/channel.go Channel.Open *)
+Definition channel_open_code : list dstmt :=
+  [DAssign "err" "c.t.Open()"; DIf (DNot (DEq "err" "nil")) [DReturn "err"] []; DCall "defer func() { if reterr != nil { _ = c.Close() } }()"; DCall "go c.read()"; DIf (DAtom "c.AuthBypass") [DReturn "nil"] []; DAssign "authData" "c.t.InChannelAuthData()"; DSwitch "authData.Type" [(["transport.InChannelAuthSSH"], [DCall "c.AuthenticateSSH( []byte(authData.Password), []byte(authData.PrivateKeyPassPhrase), )"; DIf (DNot (DEq "err" "nil")) [DReturn "err"] []]); (["transport.InChannelAuthTelnet"], [DCall "c.AuthenticateTelnet([]byte(authData.User), []byte(authData.Password))"; DIf (DNot (DEq "err" "nil")) [DReturn "err"] []]); (["transport.InChannelAuthUnsupported"], [])]; DIf (DAtom "len(b) > 0") [DCall "c.Q.Requeue(b)"] []; DReturn "nil"].
 (* channel/channel.go Channel.processOut *)
 Definition process_out_code : list dstmt :=
   [DAssign "lines" "bytes.Split(b, []byte(""\n""))"; DAssign "cleanLines" "make([][]byte, len(lines))"; DRange "l" "lines" [DAssign "i" "index of l"; DAssign "cleanLines[i]" "bytes.TrimRight(l, "" "")"]; DAssign "b" "bytes.Join(cleanLines, []byte(""\n""))"; DIf (DAtom "strip") [DAssign "b" "c.PromptPattern.ReplaceAll(b, nil)"] []; DAssign "b" "bytes.Trim(b, string(c.ReturnChar))"; DAssign "b" "bytes.Trim(b, ""\n"")"; DReturn "b"].
